@@ -67,6 +67,24 @@ func lexString(k int) string {
 	return lexPieces[k/(n*n)] + lexPieces[(k/n)%n] + lexPieces[k%n]
 }
 
+// cmtString returns the k-th string of length 1..5 over the characters remarks are made of.
+const cmtCount = 4 + 16 + 64 + 256 + 1024
+
+func cmtString(k int) string {
+	const alpha = "/* x"
+	n := 1
+	for size := 4; k >= size; size *= 4 {
+		k -= size
+		n++
+	}
+	b := make([]byte, n)
+	for i := n - 1; i >= 0; i-- {
+		b[i] = alpha[k%4]
+		k /= 4
+	}
+	return string(b)
+}
+
 func lexSoup(r *prng.Rand) string {
 	var sb strings.Builder
 	for i, n := 0, r.Range(1, 8); i < n; i++ {
@@ -230,8 +248,22 @@ func runC10(c *Ctx) *Replay {
 	if c.N.Batch.Runs >= vocabRuns+2*lexCount+1000 {
 		lexRuns = 2 * lexCount
 	}
+	cmtRuns := 0
+	if c.N.Batch.Runs >= vocabRuns+lexRuns+2*cmtCount+1000 {
+		cmtRuns = 2 * cmtCount
+	}
 	fewFaults := false
 	switch {
+	case cmtRuns > 0 && c.Run >= c.N.Batch.Runs-lexRuns-cmtRuns && c.Run < c.N.Batch.Runs-lexRuns:
+		// exhaustive: every string of 1..5 characters over the remark alphabet (slash, star,
+		// blank, a letter), at top level and in front of a field
+		k := c.Run - (c.N.Batch.Runs - lexRuns - cmtRuns)
+		input = []byte(cmtString(k/2) + "\n")
+		if k%2 == 1 {
+			input = []byte("struct S {\n" + cmtString(k/2) + "\nint32 a;\n}\n")
+		}
+		origin = "remarks<=5"
+		fewFaults = k%16 > 1
 	case lexRuns > 0 && c.Run >= c.N.Batch.Runs-lexRuns:
 		// exhaustive: every string of 1..3 lexeme characters where a literal is expected
 		// (the last runs of the batch; failures of the reader are injected for one in eight)
